@@ -125,7 +125,9 @@ SCENARIOS = [
     # small feasible region: feasible members appear one at a time during the run, with the constraint-ranking survival
     ("constr-survival-late-feasible", lambda c: c["surv"] == "ConstrRankAndCrowding" and c.get("late_feasible") and c["alg"] in ("NSDE", "GDE3", "GDE3MNN", "GDE32NN", "GDE3P")),
     # single-objective DE on a coarse plateau with a minimal population: generations in which no trial replaces its parent
-    ("de-stagnant", lambda c: c["alg"] == "DE" and c["digits"] == 1 and c["pop_size"] <= 1 + 2 * (c["y"] + (1 if "-to-" in c["sel"] else 0)) + 2),
+    # (every variable has a proper range and most coordinates cross over, so the rejected trials differ from their parents)
+    ("de-stagnant", lambda c: c["alg"] == "DE" and c["digits"] == 1 and c["pop_size"] <= 1 + 2 * (c["y"] + (1 if "-to-" in c["sel"] else 0)) + 2
+     and float.fromhex(c["CR"]) >= 0.5 and bool(np.all(decarr(c["xu"]) - decarr(c["xl"]) > 1e-3))),
     ("default-survival-late-feasible", lambda c: c["surv"] == "default" and c.get("late_feasible")),
     # constraint-ranking survival that has to cut inside the infeasible part: two constraints (fronts of several members in violation
     # space), few feasible points
